@@ -21,8 +21,26 @@ vars == <<l>>
 SeqToSet(s) == {s[i] : i \in DOMAIN s}
 CountIn(s, x) == Cardinality({i \in DOMAIN s : s[i] = x})
 
+\* geometric placement: rectangles <<x, y, w, h>> in integer units, tolerance t
+\* (0 unless coordinates had to be rounded); boxes are listed in pre-order
+InBox(r, R, t) == /\ r[1] >= R[1] - t /\ r[2] >= R[2] - t
+                  /\ r[1] + r[3] <= R[1] + R[3] + t /\ r[2] + r[4] <= R[2] + R[4] + t
+Apart(a, b, t) == \/ a[3] = 0 \/ a[4] = 0 \/ b[3] = 0 \/ b[4] = 0
+                  \/ a[1] + a[3] <= b[1] + t \/ b[1] + b[3] <= a[1] + t
+                  \/ a[2] + a[4] <= b[2] + t \/ b[2] + b[4] <= a[2] + t
+PlacementClauses(e) ==
+  IF "boxes" \notin DOMAIN e THEN {} ELSE
+  IF \A i \in DOMAIN e.nodes :
+       LET nd == e.nodes[i]
+           u == nd[1]
+           r == <<nd[2], nd[3], nd[4], nd[5]>>
+       IN /\ u \in DOMAIN e.boxes
+          /\ InBox(r, e.boxes[u], e.tol)
+          /\ \A v \in DOMAIN e.st : e.st[v] = u => Apart(r, e.boxes[v], e.tol)
+  THEN {} ELSE {"ClauseNodesInsideSpecies"}
+
 DrawingClauses(e) ==
-  IF e.exc # "" THEN {"ClauseNoFailure"} ELSE
+  IF e.exc # "" THEN {"ClauseNoFailure"} ELSE PlacementClauses(e) \cup
   LET ot == e.in.ot
       I == Info(e.in.st)
       m == e.m
